@@ -2,13 +2,13 @@
 chk("C11", "exploration", "exhaustive enumeration + online reference-codec oracle under ASan/UBSan",
     "Every byte string of length 0-3 (thorough: all 2^24; quick: lengths 0-2 complete + 2e6 of length 3), every 4-character "
     "group over a 70-symbol alphabet (complete) and over all bytes (thorough: all 2^32; quick: 3e7), every string up to length "
-    "6/8 over a 10-class alphabet, and random strings to 64 KiB are pushed through the real encoder/decoder of the rebuilt "
+    "6/8 over a 10-class alphabet, every encoder input length 0-3072 and random strings to 64 KiB (encoder inputs are exact-size unterminated heap blocks) are pushed through the real encoder/decoder of the rebuilt "
     "library and judged by an independent arithmetic codec; buffer arithmetic is watched by ASan/UBSan.",
     "Trusted: the reference codec in drivers/vh.c (cross-checked against Python's base64 in every run), gcc sanitizers. "
     "Text with interior '=' and non-canonical trailing bits is unjudged (statement silent).",
     "DESIGN.md 3/C11")
 chk("C02", "exploration", "exhaustive configuration-matrix enumeration + table-model monitor + primitive hook, under ASan/UBSan",
-    "The finite matrix provider x route (setkey / callback variants) x configured alg (16) x key (absent + every family) x key alg "
+    "The finite matrix provider x route (setkey / four callback variants / three setkey histories: refused call after an admitted one, admitted after admitted) x configured alg (16) x key (absent + every family) x key alg "
     "attribute (absent, every name, unknown) x public/private x header alg variant (35) x signature kind (empty, garbage, valid, "
     "HMAC under empty / public-PEM / zero keys) is enumerated (thorough: completely; quick: reduced axes), each setkey/verify/"
     "generate call is logged at the API boundary and judged offline by a 40-line table model; the LIBJWT_VERIF hook shows which "
@@ -16,7 +16,7 @@ chk("C02", "exploration", "exhaustive configuration-matrix enumeration + table-m
     "Trusted: OpenSSL EVP as reference signer/verifier, the table model in monitors/policy_model.py. INVAL-involving setkey "
     "returns are unjudged. Providers not compiled (MbedTLS) are not covered.", "DESIGN.md 3/C02")
 chk("C03", "exploration", "exhaustive configuration x token-shape enumeration + predicate monitor under ASan/UBSan",
-    "Every checker/builder configuration (5 routes x explicit alg x key x key alg attribute x public/private) is crossed with "
+    "Every checker/builder configuration (8 routes incl. setkey histories x explicit alg x key x key alg attribute x public/private) is crossed with "
     "every token shape (35 header-alg variants x 7 third-segment shapes); the monitor asserts the four clauses of the statement "
     "on each logged call and requires positive controls (alg-none accepted key-less, signed tokens accepted/produced).",
     "Trusted: harness token builder/decoder. A callback that withdraws a key is unjudged.", "DESIGN.md 3/C03")
@@ -34,7 +34,7 @@ chk("C01", "exploration", "systematic token mutation + independent reference ver
     "algorithms, ECDSA corner values and re-encodings, constant signatures, extra segments, control bytes, HMAC under "
     "attacker-computable keys; extensions by 63..65537 characters/bytes around powers of two); every mutant is verified under both "
     "providers; key-rotation histories (verify, free the keyring, load another key at the same address, verify again) run on the "
-    "ASan and on a plain build; the monitor asserts accepted => reference-valid and requires every unmutated token to verify, "
+    "ASan and on a plain build; ECDSA signatures whose r makes the verification point the point at infinity (the primitive reports an error, not a verdict); and verify/generate are repeated with the crypto library's own k-th allocation failing for every k (OpenSSL CRYPTO_set_mem_functions, gnutls_malloc pointers; ~1e4 injected faults in the quick tier); the monitor asserts accepted => reference-valid and requires every unmutated token to verify, "
     "also after all mutants of its case.",
     "Trusted: OpenSSL primitives called directly; lenient reference decoding makes the check one-directional. Forgeries that need "
     "to break the primitive are out of reach. One open known finding (Ed448 last byte on GnuTLS, root cause in nettle).",
@@ -48,17 +48,17 @@ chk("C04", "exploration", "history replay against a reference claim model with a
     "Trusted: Python json as reference reader; the harness' time() replaces the libc clock for the statically linked library. "
     "Integers beyond int64 and escaped NULs are unjudged (jansson refuses them).", "DESIGN.md 3/C04")
 chk("C06", "exploration", "sanitizers (gcc ASan+UBSan+LSan; clang libFuzzer+ASan+UBSan) over generated and coverage-guided tokens + conservative well-formedness classifier",
-    "3e4 (quick) / 5e5 (thorough) grammar-derived near-valid tokens from 20 generator classes plus 4e5 / 2e7 coverage-guided "
+    "3e4 (quick) / 5e5 (thorough) grammar-derived near-valid tokens from 21 generator classes (incl. right-length signatures with zero / all-ones halves) plus 4e5 / 2e7 coverage-guided "
     "libFuzzer executions (dictionary of alg names and JSON punctuation, inputs to 64 KiB) are each verified by 22 checkers "
     "(both providers x no key/HS256/RS256/PS256/ES256/ES384/ES512/ES256K/Ed25519/Ed448 and ES256 on a curve GnuTLS cannot import, all with a reading callback) under sanitizers; every accepted token and "
     "the whole fuzz corpus are then judged offline by a conservative classifier (accepted => not definitely malformed). Leaks "
-    "are checked by LeakSanitizer at process exit and per input by libFuzzer.",
+    "are checked by LeakSanitizer at process exit and per input by libFuzzer. Valid and invalid tokens of 12 key/alg pairs are also verified while the crypto library's own k-th allocation fails (every k, both providers), under ASan/LSan.",
     "Trusted: sanitizers see libjwt code only (jansson/OpenSSL/GnuTLS uninstrumented); red-zone tools miss intra-object "
     "overflows. clang's -fsanitize=null is disabled in the fuzz flavour (false alarm on ll.h's container_of idiom, which gcc's "
     "UBSan does not flag). NUL-prefix and over-deep JSON are ambiguous and unjudged.", "DESIGN.md 3/C06")
 chk("C07", "exploration", "sanitizers (gcc ASan+UBSan+LSan, clang libFuzzer) over a single/double-fault JWK matrix + Python json reference monitor",
     "The exhaustive single-fault matrix (every key template x 17 members x 16 substitutes), sampled fault pairs (3e3 / 1.5e5), "
-    "key sets mixing good and bad elements, 'keys' of every JSON type, non-JSON text, byte-mutated/truncated JWKs and random "
+    "key sets mixing good and bad elements (up to 1100 / 4100 elements), base64url members with padding and blanks, 'keys' of every JSON type, non-JSON text, byte-mutated/truncated JWKs and random "
     "bytes are loaded through all 11 jwks_load*/jwks_create* entry points (incl. explicit zero length) under sanitizers; every outcome (set error, item "
     "count, per-item kid/error/message/kty/material) is logged and compared with what Python's json says the document is. "
     "libFuzzer (JWK dictionary, 1.5e5 / 5e6 executions) adds coverage-guided inputs.",
@@ -66,15 +66,15 @@ chk("C07", "exploration", "sanitizers (gcc ASan+UBSan+LSan, clang libFuzzer) ove
     "DESIGN.md 3/C07")
 chk("C15", "exploration", "bounded-exhaustive operation sequences + type-strict dict model over logged snapshots, under ASan/UBSan/LSan",
     "All sequences up to length 3 (quick) / 4 (thorough) over a 39-operation alphabet and 2e4 / 5e5 random sequences to length 40 "
-    "with boundary values are executed on builder headers, builder claims and on the jwt_t handed to builder and checker "
+    "with boundary values (empty member names through merges, reals/null/booleans inserted as JSON, pretty JSON gets, BOOL values other than 0/1) are executed on builder headers, builder claims and on the jwt_t handed to builder and checker "
     "callbacks; every operation's return code, value.error, returned value and a dump of the whole object are compared with a "
     "Python dict model of the statement; the builder's own maps are dumped before and after a generate whose callback edits the "
     "token and must be identical.",
     "Trusted: Python json for reading the dumps; unjudged operations (statement silent) are only required not to change the "
     "object.", "DESIGN.md 3/C15")
 chk("C16", "exploration", "bounded-exhaustive operation sequences + Python list model over logged state dumps, under ASan/UBSan/LSan",
-    "All sequences up to length 4 (quick) / 5 (thorough) over 14 keyring operations and 1.5e3 / 4e4 random sequences up to "
-    "length 200; after every step the complete observable state (count, each item's unique id/kid/error by index, "
+    "All sequences up to length 4 (quick) / 5 (thorough) over 14 keyring operations, 1.5e3 / 4e4 random sequences up to "
+    "length 200 and 16 / 160 long-keyring histories (300-key documents, up to ~3000 items); after every step the complete observable state (count, each item's unique id/kid/error by index, "
     "find_bykid results, error_any, set error) is dumped and compared with an ordered-list model; AddressSanitizer catches "
     "use of freed items, LeakSanitizer leaks at exit.",
     "Trusted: unique ids carried in key bytes/kids identify items; sanitizers see libjwt code only.", "DESIGN.md 3/C16")
@@ -100,7 +100,7 @@ chk("C14", "exploration", "contract monitor over four logged workloads (historie
     "of the source were observed and which were not, so unreached failure causes are visible.",
     "Allocation-failure causes are C17's. Causes not in the four workloads are listed as unobserved messages.", "DESIGN.md 3/C14")
 chk("C12", "exploration", "dual-provider differential monitoring of the mutation workload + selector/environment/portability probes, under ASan/UBSan",
-    "Every token of the C01 mutation workload (23 classes x every key/alg x three signers: harness, libjwt/OpenSSL, libjwt/GnuTLS) "
+    "Every token of the C01 mutation workload (23 classes x every key/alg incl. HMAC keys of 65-200 bytes, past the hash block sizes x three signers: harness, libjwt/OpenSSL, libjwt/GnuTLS) "
     "is verified under both providers in the same process and the verdict pair is judged (agreement on RFC-signed and on invalid "
     "tokens, each provider accepts the other's signatures, byte-identical tokens for HS*/RS*/EdDSA); jwt_set_crypto_ops(_t) is "
     "called with 22 names and ids -2..7 from both starting providers; 13 JWT_CRYPTO values are observed in child processes; "
@@ -109,7 +109,7 @@ chk("C12", "exploration", "dual-provider differential monitoring of the mutation
     "known findings (Ed448 last byte on GnuTLS).", "DESIGN.md 3/C12")
 chk("C05", "exploration", "generate->verify round trips over random JSON trees and fresh keys, all provider pairs, Python JSON-equality monitor + reference verifier, under ASan/UBSan",
     "2.4e4 (quick) / 6e5 (thorough) round trips: fresh keys of every type and size x every admissible alg x all four (signing, "
-    "verifying) provider pairs x random header/claim JSON trees set through whole-object merge or typed setters at random clock "
+    "verifying) provider pairs x random header/claim JSON trees (incl. empty and 400-character member names) set through whole-object merge or typed setters at random clock "
     "values. Every token must verify under the checker and under the OpenSSL reference, and the header/claims dumped by the "
     "checker callback must be JSON-equal (type-strict) to the harness' inputs plus alg/typ/iat. The run counts ECDSA signatures "
     "with a leading zero byte in r or s and is inconclusive below a minimum.",
@@ -124,7 +124,7 @@ chk("C19", "exploration", "exhaustive callback-program enumeration + differentia
     "Every callback program up to length 2 (quick: 343 programs) / 3 (thorough: 6175) over 18 edits of the handed jwt_t is run "
     "against 32 claim policies x 17 tokens (each passing or failing exactly one check or the signature; HS256, ES256, unsigned) "
     "x 2 providers at a fixed clock and the verdict compared with the same checker without callback; every 7th program also "
-    "returns non-zero values and must fail; 2.6e5 policy-matrix cells where the callback selects key+alg, the key only or the alg "
+    "returns one of 16 non-zero values (1, -1, 255, +-256, 512, +-65536, 2^24, INT_MIN, INT_MAX, ...) and must fail; 2.6e5 policy-matrix cells where the callback selects key+alg, the key only or the alg "
     "only are compared with the same effective pair configured through setkey.",
     "The callback-free twin and the setkey route are the oracles.", "DESIGN.md 3/C19")
 chk("C17", "fault_enumeration", "exhaustive single-allocation-failure injection through jwt_set_alloc + differential against the fault-free run, under ASan/UBSan",
@@ -146,10 +146,10 @@ chk("C18", "exploration", "ThreadSanitizer stress with injected scheduling delay
     "a repeat with too few overlaps makes the run inconclusive.",
     "Schedules are sampled. Races inside uninstrumented libraries are invisible. Helgrind not used (cost, noise).", "DESIGN.md 3/C18")
 chk("C20", "exploration", "black-box monitoring of the ASan-built tools (exit status, stdout) + OpenSSL-direct key comparison helper",
-    "~1e3 (quick) / ~3e3 (thorough) tool invocations: jwt-verify over token lists of length 1..1024 with 0..n failing tokens at "
+    "~2e3 (quick) / ~5e3 (thorough) tool invocations: jwt-verify over token lists of length 1..1024 (and 65536, 65537, 65792 failing tokens on stdin) with 0..n failing tokens at "
     "random positions, as arguments and on stdin (incl. an unterminated last line), tokens up to 64 KiB; jwt-generate -> jwt-verify for every key type with every "
-    "documented spelling of the options (cross-checked against each tool's --help); key2jwk -> library import -> jwk2key -> "
+    "documented spelling of the options (cross-checked against each tool's --help) in quiet, default, verbose and --print=cat output modes, the generator's stdout also piped as it is into jwt-verify -; key2jwk -> library import -> jwk2key -> "
     "component-wise comparison for fresh keys of every type (oct keys with trailing NL/CR/NUL/space, leading NL, embedded NUL), EC keys "
     "generated until leading-zero coordinates and scalars occurred (counted in the evidence); RFC 7518 member encodings checked by Python.",
-    "Trusted: OpenSSL key accessors in drivers/d_c20.c; --print pipelines and Windows paths not exercised; blank lines/CRLF on "
+    "Trusted: OpenSSL key accessors in drivers/d_c20.c; --print only with the command cat; Windows paths not exercised; blank lines/CRLF on "
     "stdin unjudged.", "DESIGN.md 3/C20")
